@@ -162,3 +162,230 @@ Proof.
     rewrite Hopen, (scan_text_inside c Hc rest [] _ Hlast Hev). cbn [app].
     rewrite (proj1 (csv_parse c bs) Hcsv). rewrite IH, push_filler_is, <- !app_assoc. reflexivity.
 Qed.
+
+(** ---------- soundness *)
+Lemma raw_text_app a b : raw_text a -> raw_text b -> raw_text (a ++ b).
+Proof.
+  induction 1 as [|x t A B Ht IH|t Ht IH|t Ht IH]; intros Hb; cbn [app];
+    [exact Hb | apply rx_byte; auto | apply rx_lb; auto | apply rx_rb; auto].
+Qed.
+
+Lemma raw_text_byte x : x <> ch_lbrace -> x <> ch_rbrace -> raw_text [x].
+Proof. intros A B. apply rx_byte; [exact A | exact B | constructor]. Qed.
+
+Lemma is_brace_cases x : is_brace x = true -> x = ch_lbrace \/ x = ch_rbrace.
+Proof. unfold is_brace. intros H. apply orb_true_iff in H. destruct H as [H|H]; apply N.eqb_eq in H; auto. Qed.
+
+Lemma run_len_pos_cons s : Nat.even (run_len ch_rbrace (ch_rbrace :: s)) = true ->
+  exists s'', s = ch_rbrace :: s'' /\ Nat.even (run_len ch_rbrace s'') = true.
+Proof.
+  cbn [run_len]. rewrite N.eqb_refl. destruct s as [|w1 s'']; [cbn; discriminate|].
+  cbn [run_len]. destruct (N.eqb w1 ch_rbrace) eqn:E; [|cbn; discriminate].
+  apply N.eqb_eq in E. subst w1. cbn [Nat.even]. intros H. exists s''. split; [reflexivity | exact H].
+Qed.
+
+Definition inside_result (cur s : bytes) (acc its : list bof) : Prop :=
+  exists c' rest bs its',
+    s = c' ++ ch_rbrace :: rest
+    /\ raw_text (cur ++ c')
+    /\ (forall x, cur ++ c' <> x ++ [ch_rbrace])
+    /\ Nat.even (run_len ch_rbrace rest) = true
+    /\ csv_text (cur ++ c') bs
+    /\ fmt_items rest its'
+    /\ its = acc ++ map Bound bs ++ its'.
+
+Lemma scan_sound_both : forall n s, length s <= n ->
+  (forall cur acc its, raw_text cur ->
+     scan_format s false cur acc = Some its ->
+     exists its', fmt_items (cur ++ s) its' /\ its = acc ++ its')
+  /\
+  (forall cur acc its, raw_text cur ->
+     (forall y, cur = y ++ [ch_rbrace] -> Nat.even (run_len ch_rbrace s) = true) ->
+     scan_format s true cur acc = Some its ->
+     inside_result cur s acc its).
+Proof.
+  induction n as [|n IH]; intros s Hlen.
+  - destruct s; [|cbn in Hlen; lia]. split.
+    + intros cur acc its Hc H. cbn in H. injection H as <-.
+      exists (filler_of cur). rewrite app_nil_r. split; [apply fi_end, Hc | apply push_filler_is].
+    + intros cur acc its _ _ H. cbn in H. discriminate.
+  - destruct s as [|w0 s']; [apply (IH []); cbn; lia|].
+    assert (Hs' : length s' <= n) by (cbn in Hlen; lia).
+    destruct (IH s' Hs') as [IHout IHin].
+    split.
+    + (* outside *)
+      intros cur acc its Hc. rewrite scan_format_eq. cbv zeta. cbn [andb].
+      destruct s' as [|w1 s''].
+      * (* last byte *)
+        cbv iota.
+        destruct (N.eqb w0 ch_rbrace) eqn:Er; [cbn [andb negb]; discriminate|]. cbn [andb].
+        destruct (N.eqb w0 ch_lbrace) eqn:El.
+        -- intros H. cbn in H. discriminate.
+        -- intros H. apply N.eqb_neq in Er. apply N.eqb_neq in El.
+           destruct (IHout (cur ++ [w0]) acc its (raw_text_app _ _ Hc (raw_text_byte w0 El Er)) H) as [its' [F E]].
+           exists its'. rewrite <- app_assoc in F. split; assumption.
+      * destruct (N.eqb w0 w1 && is_brace w0 && negb false) eqn:Esc.
+        -- (* a doubled brace *)
+           rewrite andb_true_r in Esc. apply andb_true_iff in Esc. destruct Esc as [E1 E2].
+           apply N.eqb_eq in E1. subst w1.
+           assert (Hs'' : length s'' <= n) by (cbn in Hlen; lia).
+           destruct (IH s'' Hs'') as [IHout2 _].
+           intros H.
+           assert (Hraw : raw_text (cur ++ [w0; w0])).
+           { apply raw_text_app; [exact Hc|]. destruct (is_brace_cases w0 E2) as [->| ->]; constructor; constructor. }
+           destruct (IHout2 (cur ++ [w0; w0]) acc its Hraw H) as [its' [F E]].
+           exists its'. rewrite <- app_assoc in F. split; assumption.
+        -- destruct (N.eqb w0 ch_rbrace) eqn:Er; [cbn [andb negb]; discriminate|]. cbn [andb].
+           destruct (N.eqb w0 ch_lbrace) eqn:El.
+           ++ (* a bound opens *)
+              apply N.eqb_eq in El. subst w0. intros H.
+              assert (Hw1 : w1 <> ch_lbrace).
+              { intros ->. rewrite N.eqb_refl in Esc. cbn in Esc. discriminate. }
+              destruct (IHin [] (push_filler cur acc) its rx_nil ltac:(intros y E; destruct y; discriminate) H)
+                as [c' [rest [bs [its' [Es [Hraw [Hlast [Hev [Hcsv [Hf Eits]]]]]]]]]].
+              cbn [app] in *. exists (filler_of cur ++ map Bound bs ++ its'). split.
+              ** rewrite Es. apply fi_bound; try assumption.
+                 intros x Ex. destruct c' as [|c0 c'']; [discriminate|].
+                 cbn [app] in Es. injection Es as E0 _. injection Ex as E1 _. congruence.
+              ** rewrite Eits, push_filler_is, <- !app_assoc. reflexivity.
+           ++ intros H. apply N.eqb_neq in Er. apply N.eqb_neq in El.
+              destruct (IHout (cur ++ [w0]) acc its (raw_text_app _ _ Hc (raw_text_byte w0 El Er)) H) as [its' [F E]].
+              exists its'. rewrite <- app_assoc in F. split; assumption.
+    + (* inside *)
+      intros cur acc its Hc Hpar. rewrite scan_format_eq. cbv zeta. cbn [andb].
+      destruct (N.eqb w0 ch_rbrace) eqn:Er.
+      * apply N.eqb_eq in Er. subst w0.
+        destruct (Nat.odd (run_len ch_rbrace (ch_rbrace :: s'))) eqn:Eodd.
+        -- (* the closing brace *)
+           cbn [andb].
+           assert (Hesc : match s' with
+                          | [] => false
+                          | w1 :: _ => N.eqb ch_rbrace w1 && is_brace ch_rbrace && negb true
+                          end = false) by (destruct s'; [reflexivity | apply andb_false_r]).
+           rewrite Hesc. cbn [negb andb]. change (N.eqb ch_rbrace ch_lbrace) with false. cbv iota.
+           destruct (parse_bounds_csv (split_on ch_comma cur)) as [l|] eqn:Ecsv; [|discriminate].
+           destruct (proj1 (parse_csv_iff _ l) Ecsv) as [bs [_ ->]].
+           intros H. destruct (IHout [] (acc ++ map Bound bs) its rx_nil H) as [its' [F E]]. cbn [app] in F.
+           exists [], s', bs, its'. rewrite app_nil_r.
+           assert (Hev' : Nat.even (run_len ch_rbrace s') = true).
+           { cbn [run_len] in Eodd. rewrite N.eqb_refl in Eodd. rewrite Nat.odd_succ in Eodd. exact Eodd. }
+           repeat split; try assumption.
+           ++ intros y Ey. specialize (Hpar y Ey). rewrite <- Nat.negb_odd, Eodd in Hpar. discriminate.
+           ++ apply csv_parse. exact Ecsv.
+           ++ rewrite E, <- app_assoc. reflexivity.
+        -- (* an escaped pair of closing braces *)
+           assert (Hev : Nat.even (run_len ch_rbrace (ch_rbrace :: s')) = true)
+             by (rewrite <- Nat.negb_odd, Eodd; reflexivity).
+           destruct (run_len_pos_cons s' Hev) as [s'' [-> Hev'']].
+           cbn [andb]. rewrite N.eqb_refl. unfold is_brace at 1. rewrite N.eqb_refl, orb_true_r. cbn [negb andb].
+           assert (Hs'' : length s'' <= n) by (cbn in Hlen; lia).
+           destruct (IH s'' Hs'') as [_ IHin2].
+           intros H.
+           assert (Hraw : raw_text (cur ++ [ch_rbrace; ch_rbrace]))
+             by (apply raw_text_app; [exact Hc | constructor; constructor]).
+           destruct (IHin2 (cur ++ [ch_rbrace; ch_rbrace]) acc its Hraw (fun _ _ => Hev'') H)
+             as [c' [rest [bs [its' [Es [Hr [Hlast [Hevr [Hcsv [Hf Eits]]]]]]]]]].
+           exists (ch_rbrace :: ch_rbrace :: c'), rest, bs, its'.
+           rewrite <- app_assoc in Hr, Hlast, Hcsv. cbn [app] in *. rewrite Es.
+           repeat split; assumption.
+      * cbn [andb].
+        destruct s' as [|w1 s''].
+        -- cbv iota. destruct (N.eqb w0 ch_lbrace) eqn:El; [discriminate|].
+           intros H. cbn in H. discriminate.
+        -- destruct (N.eqb w0 w1 && is_brace w0 && negb false) eqn:Esc.
+           ++ rewrite andb_true_r in Esc. apply andb_true_iff in Esc. destruct Esc as [E1 E2].
+              apply N.eqb_eq in E1. subst w1.
+              destruct (is_brace_cases w0 E2) as [->| ->]; [|rewrite N.eqb_refl in Er; discriminate].
+              assert (Hs'' : length s'' <= n) by (cbn in Hlen; lia).
+              destruct (IH s'' Hs'') as [_ IHin2].
+              intros H.
+              assert (Hraw : raw_text (cur ++ [ch_lbrace; ch_lbrace]))
+                by (apply raw_text_app; [exact Hc | constructor; constructor]).
+              assert (Hpar' : forall y, cur ++ [ch_lbrace; ch_lbrace] = y ++ [ch_rbrace] ->
+                                        Nat.even (run_len ch_rbrace s'') = true).
+              { intros y Ey. exfalso. apply (f_equal (@rev _)) in Ey.
+                rewrite !rev_app_distr in Ey. cbn in Ey. discriminate. }
+              destruct (IHin2 (cur ++ [ch_lbrace; ch_lbrace]) acc its Hraw Hpar' H)
+                as [c' [rest [bs [its' [Es [Hr [Hlast [Hevr [Hcsv [Hf Eits]]]]]]]]]].
+              exists (ch_lbrace :: ch_lbrace :: c'), rest, bs, its'.
+              rewrite <- app_assoc in Hr, Hlast, Hcsv. cbn [app] in *. rewrite Es.
+              repeat split; assumption.
+           ++ destruct (N.eqb w0 ch_lbrace) eqn:El; [discriminate|].
+              intros H. apply N.eqb_neq in Er. apply N.eqb_neq in El.
+              assert (Hraw : raw_text (cur ++ [w0])) by (apply raw_text_app; [exact Hc | apply raw_text_byte; assumption]).
+              assert (Hpar' : forall y, cur ++ [w0] = y ++ [ch_rbrace] ->
+                                        Nat.even (run_len ch_rbrace (w1 :: s'')) = true).
+              { intros y Ey. exfalso. apply (f_equal (@rev _)) in Ey.
+                rewrite !rev_app_distr in Ey. cbn in Ey. injection Ey as Ey _. contradiction. }
+              destruct (IHin (cur ++ [w0]) acc its Hraw Hpar' H)
+                as [c' [rest [bs [its' [Es [Hr [Hlast [Hevr [Hcsv [Hf Eits]]]]]]]]]].
+              exists (w0 :: c'), rest, bs, its'.
+              rewrite <- app_assoc in Hr, Hlast, Hcsv. cbn [app] in *. rewrite Es.
+              repeat split; assumption.
+Qed.
+
+(** soundness: whatever the scanner accepts is in the language, with those items *)
+Theorem scan_format_sound s its : scan_format s false [] [] = Some its -> fmt_items s its.
+Proof.
+  intros H. destruct (scan_sound_both (length s) s (Nat.le_refl _)) as [A _].
+  destruct (A [] [] its rx_nil H) as [its' [F E]]. cbn [app] in *. subst its'. exact F.
+Qed.
+
+Theorem scan_format_iff s its : scan_format s false [] [] = Some its <-> fmt_items s its.
+Proof.
+  split; [apply scan_format_sound|]. intros H. rewrite (scan_format_complete s its H []). reflexivity.
+Qed.
+
+(** the documented language (no braces inside a bound) is part of it *)
+Lemma brace_free_raw c : brace_free c -> raw_text c.
+Proof.
+  induction 1 as [|x c [A B] Hc IH]; [constructor | apply rx_byte; assumption].
+Qed.
+
+Lemma raw_run_even_tail t : raw_text t -> forall tail,
+  (tail = [] \/ exists x, tail = ch_lbrace :: x) -> Nat.even (run_len ch_rbrace (t ++ tail)) = true.
+Proof.
+  induction 1 as [|x t A B Ht IH|t Ht IH|t Ht IH]; intros tail Htail; cbn [app run_len].
+  - destruct Htail as [->|[x ->]]; reflexivity.
+  - apply N.eqb_neq in B. rewrite B. reflexivity.
+  - reflexivity.
+  - rewrite N.eqb_refl. cbn [Nat.even]. apply IH, Htail.
+Qed.
+
+Lemma fmt_doc_run s its : fmt_doc s its -> Nat.even (run_len ch_rbrace s) = true.
+Proof.
+  intros H. destruct H as [t Ht|t c rest bs its Ht Hc Hcsv Hrest].
+  - rewrite <- (app_nil_r t). apply raw_run_even_tail; [exact Ht | left; reflexivity].
+  - apply raw_run_even_tail; [exact Ht | right; eexists; reflexivity].
+Qed.
+
+Theorem doc_in_language s its : fmt_doc s its -> fmt_items s its.
+Proof.
+  induction 1 as [t Ht|t c rest bs its Ht Hc Hcsv Hrest IH].
+  - apply fi_end, Ht.
+  - apply fi_bound; try assumption.
+    + apply brace_free_raw, Hc.
+    + intros x E. subst c. inversion Hc as [|? ? [A _] _]; subst. apply A. reflexivity.
+    + intros x E. subst c. apply Forall_app in Hc. destruct Hc as [_ Hc].
+      inversion Hc as [|? ? [_ B] _]; subst. apply B. reflexivity.
+    + apply (fmt_doc_run rest its Hrest).
+Qed.
+
+(** every format string of the documented language is accepted with the items it denotes *)
+Corollary documented_format_accepted s its : fmt_doc s its -> scan_format s false [] [] = Some its.
+Proof. intros H. apply scan_format_iff, doc_in_language, H. Qed.
+
+(** the whole of UserBoundsList::from_str on an argument that holds a brace *)
+Theorem parse_ublist_format_iff s u :
+  existsb is_brace s = true ->
+  (parse_ublist s = Some u <->
+   exists its, fmt_items s its /\ bounds_only its <> []
+               /\ from_vec its = Some u).
+Proof.
+  intros Hb. unfold parse_ublist, parse_bounds_list. destruct s as [|c s']; [discriminate|]. rewrite Hb.
+  split.
+  - destruct (scan_format (c :: s') false [] []) as [l|] eqn:E; [|discriminate].
+    intros H. exists l. split; [apply scan_format_sound, E|]. split; [|exact H].
+    unfold from_vec in H. destruct (bounds_only l); [discriminate | discriminate].
+  - intros [its [F [_ H]]]. rewrite (proj2 (scan_format_iff _ _) F). exact H.
+Qed.
